@@ -502,6 +502,33 @@ class Harness:
         self.settle()
         return err
 
+    def start_stop_at_time_change(self, n, starter=("start",)):
+        """start (or a bounded run); a TIME_CHANGED listener calls stop() at the n-th time change from now (the
+        'pause when the clock reaches ...' control of a user interface).  Returns the error of either command."""
+        sim = self.sim
+        box = {"n": 0}
+        prev = self.rec.hooks.get("TIME_CHANGED")
+
+        def hook(entry):
+            if prev is not None:
+                prev(entry)
+            box["n"] += 1
+            if box["n"] == n:
+                try:
+                    sim.stop()
+                except Exception as e:
+                    box["e"] = e
+        self.rec.hooks["TIME_CHANGED"] = hook
+        try:
+            err = self.run_piece(list(starter))
+        finally:
+            if prev is None:
+                self.rec.hooks.pop("TIME_CHANGED", None)
+            else:
+                self.rec.hooks["TIME_CHANGED"] = prev
+        self.settle()
+        return err or box.get("e")
+
     def finish(self):
         """cleanup and make sure no simulator thread outlives the case."""
         try:
@@ -651,11 +678,14 @@ class RefSim:
             self.executed_faults += 1
             return "fault"
 
-    def run(self, bound=None, inclusive=True, max_events=None, pause_on_fault=False):
-        """Run to the bound (None = replication end, inclusive).  Returns 'bound', 'count' or 'fault'."""
+    def run(self, bound=None, inclusive=True, max_events=None, pause_on_fault=False, stop_at_time_change=None):
+        """Run to the bound (None = replication end, inclusive).  Returns 'bound', 'count' or 'fault'.
+        stop_at_time_change=n: a stop is requested when the clock changes for the n-th time (the event that
+        changes it - possibly the warm-up - is still carried out, then the run pauses: 'count')."""
         if bound is None or bound > self.end:
             bound, inclusive = self.end, True
         n = 0
+        tc = 0
         while True:
             e = self._first()
             if e is None or e[0] > bound or (e[0] == bound and not inclusive):
@@ -664,7 +694,12 @@ class RefSim:
                     self.ended = True
                     self.pending = []
                 return "bound"
+            changes = e[0] != self.clock
             r = self._exec(e)
+            if stop_at_time_change is not None and changes:
+                tc += 1
+                if tc == stop_at_time_change:
+                    return "count"
             if e[4] != "W":
                 n += 1                      # max_events counts model events only
             if r == "fault" and (pause_on_fault if self.strategy is None else self.strategy == 3):
